@@ -6,7 +6,7 @@
    harness/props/C01.py - no executable model exhibits it.
    ONLY statements closed by `exact`, with Print Assumptions beneath each. *)
 From Coq Require Import ZArith List Bool Permutation Lia.
-From Mesa Require Import Common.ListX Generated.Tables Model.Rng Proofs.RngProofs.
+From Mesa Require Import Common.ListX Generated.Tables Model.Rng Model.Seed Proofs.RngProofs Proofs.RngBridge.
 Import ListNotations.
 Open Scope Z_scope.
 
@@ -206,6 +206,95 @@ Example C01_example_choices :
     [[0; 4; 1]; [0; 2]; [0; 4]; [0; 3]; [0; 3]; [0; 0; 0; 0; 0; 2]; [0; 1; 1; 1; 1; 2]] /\
   one_of_choice (0, 1) [(1, 1); (0, 0); (1, 0)] true [2; 0; 1] 1 = Ok (0, 0).
 Proof. vm_compute. repeat split; congruence. Qed.
+
+(* ================================================================ code-level T1 (harness/tables/rng_code.py) *)
+(* Every constructor call of a generator-carrying class (AgentSet, CellCollection, Cell / cell_klass, DiscreteSpace
+   subclasses incl. super().__init__, the experimental ContinuousSpace) or of GroupBy anywhere in the mesa package
+   (library and bundled examples), as re-read from the working tree: none omits the generator, none passes anything but
+   self.random / model.random / its own `random` parameter / the documented legacy first-agent fall-back *)
+Theorem C01_all_sites_propagate : all_sites_propagate gen_rng_sites = true.
+Proof. vm_compute. reflexivity. Qed.
+Print Assumptions C01_all_sites_propagate.
+
+(* the fall-back kind occurs only in the three legacy `.agents` properties (exactly what wf_term excludes when the space
+   is empty); space constructors hand their own generator to their cells and to super().__init__ *)
+Theorem C01_only_legacy_fallbacks : only_legacy_fallbacks gen_rng_sites = true /\ space_ctor_ok gen_rng_sites = true.
+Proof. vm_compute. split; reflexivity. Qed.
+Print Assumptions C01_only_legacy_fallbacks.
+
+(* at every site Model/Rng.v transcribes, the source passes exactly the kind of generator the model assumes *)
+Theorem C01_sites_match_model : sites_match_model gen_rng_sites = true.
+Proof. vm_compute. reflexivity. Qed.
+Print Assumptions C01_sites_match_model.
+
+(* headline theorem restated over the source: the generator computed from the `random=` expressions READ FROM THE SOURCE
+   (gen_src) is the generator of every derivation that evaluates, and it is model.random for every well-formed
+   derivation of a model whose space was built with model.random *)
+Theorem C01_gen_of_source : forall w d c, eval w d = Ok c -> gen c = gen_src w d.
+Proof. exact (gen_of_source C01_sites_match_model). Qed.
+Print Assumptions C01_gen_of_source.
+
+Theorem C01_cell_gen_of_source : forall w d c, ceval w d = Ok c -> gen c = cgen_src w d.
+Proof. exact (cgen_of_source C01_sites_match_model). Qed.
+Print Assumptions C01_cell_gen_of_source.
+
+Theorem C01_gen_propagates_of_source : forall w d c,
+  seeded_space w -> wf_term w d -> eval w d = Ok c -> gen_src w d = MODEL_GEN.
+Proof. exact (gen_src_propagates C01_sites_match_model). Qed.
+Print Assumptions C01_gen_propagates_of_source.
+
+(* Model.__init__ / reset_randomizer / reset_rng, translated statement by statement from mesa/model.py, ARE the
+   functions of Model/Seed.v *)
+Theorem C01_source_model_init_is_model : forall seed rng std_ok np_ok dn ds cur,
+  gen_model_init seed rng std_ok np_ok dn ds cur = option_map lift_init (m_model_init seed rng std_ok np_ok dn ds).
+Proof. exact model_init_bridge. Qed.
+Print Assumptions C01_source_model_init_is_model.
+
+Theorem C01_source_reset_randomizer_is_model : forall seed cur rng std_ok np_ok dn ds,
+  gen_reset_randomizer seed cur rng std_ok np_ok dn ds =
+  let r := m_reset_randomizer seed cur in
+  Some (if r_in_place r then @None (option Z) else Some (r_reseed r),
+        if r_in_place r then Some (r_reseed r) else @None (option Z),
+        @None (option Z), Some (r_seed r)).
+Proof. exact reset_randomizer_bridge. Qed.
+Print Assumptions C01_source_reset_randomizer_is_model.
+
+Theorem C01_source_reset_rng_is_model : forall rng seed cur std_ok np_ok dn ds,
+  gen_reset_rng rng seed cur std_ok np_ok dn ds =
+  Some (@None (option Z), @None (option Z), Some (m_reset_rng rng), @None (option Z)).
+Proof. exact reset_rng_bridge. Qed.
+Print Assumptions C01_source_reset_rng_is_model.
+
+Theorem C01_source_init_skeleton : gen_model_init_skeleton_ok = true.
+Proof. vm_compute. reflexivity. Qed.
+Print Assumptions C01_source_init_skeleton.
+
+(* "re-seeding a model's generators with the seed they started from replays the same random stream", about the
+   translated source: on every non-raising path of Model.__init__ (seed=, rng= accepted by random.Random, rng= that
+   needs the numpy fall-back) the recorded _seed IS what model.random was seeded with, and reset_randomizer() hands
+   exactly that value to self.random.seed - in place, never re-binding self.random (which is what lets the Reset
+   operation of Model/Rng.v leave every collection's generator untouched: C01_reset_keeps_collections) *)
+Theorem C01_reset_replays_of_source : forall seed rng std_ok np_ok dn ds cur0 ra rs rg sr,
+  gen_model_init seed rng std_ok np_ok dn ds cur0 = Some (ra, rs, rg, sr) ->
+  exists r s, ra = Some r /\ sr = Some s /\ s = r /\ rs = None /\
+    forall rng' std' np' dn' ds',
+      gen_reset_randomizer None s rng' std' np' dn' ds' = Some (None, Some r, None, Some s).
+Proof. exact reset_replays_of_source. Qed.
+Print Assumptions C01_reset_replays_of_source.
+
+Theorem C01_reset_in_place_of_source : forall seed cur rng std_ok np_ok dn ds,
+  exists x s, gen_reset_randomizer seed cur rng std_ok np_ok dn ds = Some (None, Some x, None, Some s) /\ s = x.
+Proof. exact reset_in_place_of_source. Qed.
+Print Assumptions C01_reset_in_place_of_source.
+
+Example C01_example_seeds :
+  gen_model_init None (Some 42) true true 7 8 None = Some (Some (Some 42), None, Some (Some 42), Some (Some 42)) /\
+  gen_model_init None (Some 42) false true 7 8 None = Some (Some (Some 7), None, Some (Some 42), Some (Some 7)) /\
+  gen_model_init (Some 5) None true false 7 8 None = Some (Some (Some 5), None, Some (Some 8), Some (Some 5)) /\
+  gen_model_init (Some 5) (Some 6) true true 7 8 None = None /\
+  gen_reset_randomizer None (Some 42) None true true 0 0 = Some (None, Some (Some 42), None, Some (Some 42)) /\
+  (length gen_rng_sites >= 30)%nat /\ src_kind SCreateAgents = KModelRandom /\ src_kind SLegacyAgents = KFirstAgentOrNone.
+Proof. vm_compute. repeat split; try congruence; try lia. Qed.
 
 (* ---------------------------------------------------------------- T1 table: nothing in mesa/ (library and bundled
    examples) touches a process-global generator.  LAST in this file on purpose: when the scan finds a site this
